@@ -31,6 +31,7 @@ ENGINES["h3"] = {
     "package": "server",
     "harness": "server",
     "instrument": ["server", "server/commitlog", "server/telemetry"],
+    "derive_startsim": True,
     "extra_harness": [("server/commitlog", "commitlog")],
     "fs": [],
     "replace": {"github.com/nats-io/nats.go": "natsgo", "github.com/hashicorp/raft": "raft", "github.com/liftbridge-io/nats-on-a-log": "natslog", "github.com/nats-io/nuid": "nuid"},
